@@ -90,7 +90,10 @@ structure Proc where
   deriving DecidableEq, Repr, Hashable, Inhabited
 
 structure State where
-  /-- version of the sources on disk (constant during a run) -/
+  /-- version of the **whole set** of sources on disk — parser.c, scanner.c, listed external files —
+  (constant during a run); in the real runs it is encoded as parser version + 10 × scanner version.
+  A library is up to date iff it was built from the current version of *every* source
+  (`needs_recompile`: the library is missing or older than ANY path in `paths_to_check`). -/
   src : Nat
   /-- the file at the final library path -/
   lib : Option File
